@@ -41,3 +41,34 @@ Example C16_example :
   ids (Some [117]) [5; 5; 6; 5; 4; 6] =
   map (render (Some [117])) [(5,0); (5,1); (6,0); (6,1); (6,2); (6,3)].
 Proof. vm_compute. reflexivity. Qed.
+
+(* ---- any number of threads ---- *)
+From Bobo Require Import Model.IdGenThreads Proofs.IdGenThreadsProofs.
+
+(* For EVERY number of threads, EVERY clock and EVERY interleaving of the steps of generate() (take the lock when it
+   is free / read the clock and update the shared second and counter / build the identifier and release), the
+   identifiers handed out - in the order they were built - are an initial segment of what the sequential generator
+   returns on the clock readings in lock-acquisition order, and all of it once no call is in progress. *)
+Theorem C16_threads_refine_sequential :
+  forall (n : nat) (clk : list Z) (sched : list nat),
+    let s := trun true (t_init n clk) sched in
+    exists used, clk = used ++ t_clk s /\ is_prefix (t_out s) (gen_all gen g_init used) /\
+                 (t_lock s = None -> t_out s = gen_all gen g_init used).
+Proof. exact threads_refine_sequential. Qed.
+Print Assumptions C16_threads_refine_sequential.
+
+(* hence: pairwise distinct for any number of requests from any number of threads and any clock behaviour *)
+Theorem C16_threads_ids_distinct :
+  forall (n : nat) (clk : list Z) (sched : list nat) (urn : option (list Z)),
+    NoDup (map (render urn) (t_out (trun true (t_init n clk) sched))).
+Proof. exact threads_ids_distinct. Qed.
+Print Assumptions C16_threads_ids_distinct.
+
+(* releasing the lock before the identifier is built (from the shared counter) is refuted: two threads, one second,
+   schedule 0 0 0 1 1 1 0 1 - the same identifier twice; the code as it is returns two different ones (this also is
+   the non-vacuity example: an interleaving in which both threads are inside generate() at once) *)
+Theorem C16_format_outside_lock_refuted :
+  t_out (trun false (t_init 2 [5; 5]) bad_sched) = [(5, 1); (5, 1)] /\
+  t_out (trun true (t_init 2 [5; 5]) bad_sched) = [(5, 0); (5, 1)].
+Proof. exact format_outside_lock_repeats. Qed.
+Print Assumptions C16_format_outside_lock_refuted.
